@@ -50,7 +50,7 @@ VARIABLES
   shut,        \* "no" | "begun" | "forced" | "finishing" | "returned"      Shutdown() progress
   store,       \* [job -> persisted record]       content of the data store (last save)
   logs,        \* [job -> BOOLEAN]                the job has a log directory
-  persist,     \* [req : BOOLEAN, pc : "idle" | "sleeping", stale : BOOLEAN]   persist loop (1-slot request channel, 3 s
+  persist,     \* [req : BOOLEAN, multi : BOOLEAN, pc : "idle" | "sleeping", stale : BOOLEAN]   persist loop (1-slot request channel, 3 s
                \* pause); stale: the runner was restarted and has not saved yet (loading marks jobs canceled without a save request)
   nops, nreloads, nticks,
   \* history variables (observations of the injected runner and of API results)
@@ -205,7 +205,7 @@ Init ==
   /\ waitList = [p \in P |-> <<>>]
   /\ shut = "no"
   /\ store = <<>> /\ logs = <<>>
-  /\ persist = [req |-> FALSE, pc |-> "idle", stale |-> FALSE]
+  /\ persist = [req |-> FALSE, multi |-> FALSE, pc |-> "idle", stale |-> FALSE]
   /\ nops = 0 /\ nreloads = 0 /\ nticks = 0
   /\ runs = <<>> /\ stop = <<>> /\ ack = <<>>
   /\ last = NoLast /\ ev = NoEv
@@ -217,7 +217,11 @@ Init ==
 HStep(op, p, j, t, o, v, bad) == [op |-> op, p |-> p, j |-> j, t |-> t, o |-> o, v |-> v, bad |-> bad]
 Step(s) == hist' = IF Gen THEN Append(hist, s) ELSE hist
 NoStep == hist' = hist
-ReqPersist == persist' = [persist EXCEPT !.req = TRUE]
+\* requestPersist(): a one-slot channel.  multi: a request was made while one was already pending - the loop goroutine may
+\* have taken the first one in between (it runs as soon as the request is there), in which case one more is left for later
+ReqPersist == persist' = [persist EXCEPT !.req = TRUE, !.multi = @ \/ (persist.req /\ persist.pc = "idle")]
+\* a step of the model that is several callbacks of the code (HandleTaskChange + HandleStageChange), each with its own request
+ReqPersistMany == persist' = [persist EXCEPT !.req = TRUE, !.multi = @ \/ persist.pc = "idle"]
 OpEv(j, t, o) == ev' = [k |-> "Op", j |-> j, t |-> t, o |-> o]
 ClientOk == Quiescent /\ clock = 0
 KeepForced(l) == [l EXCEPT !.forced = last.forced]
@@ -348,7 +352,7 @@ CancelDeliver(j) ==
         /\ stop' = [stop EXCEPT ![j] = IF @.n > 0 THEN [@ EXCEPT !.n = 2]
                                         ELSE [n |-> 1, at |-> 0, duringShut |-> shut # "no", byShutdown |-> shut # "no", begunBefore |-> [t \in Tasks(j) |-> runs[j][t].begun > 0],
                                               openBefore |-> [t \in Tasks(j) |-> t \in R]]]
-        /\ IF R # {} /\ job[j].present THEN ReqPersist ELSE UNCHANGED persist
+        /\ IF R # {} /\ job[j].present THEN ReqPersistMany ELSE UNCHANGED persist
   /\ ev' = [k |-> "RunnerCancel", j |-> j, t |-> 0, o |-> ""]
   /\ NoStep /\ PreNext
   /\ UNCHANGED <<cfgv, epoch, waitList, shut, store, logs, nops, nreloads, nticks, ack, last, clock>>
@@ -400,7 +404,7 @@ SchedPass(j) ==
                                             !.execAtEnd = IF t \in E THEN exec ELSE @, !.goneAtEnd = IF t \in E THEN ~job[j].present ELSE @]
                           ELSE @[t]]]
           /\ logs' = IF R \ E # {} THEN [logs EXCEPT ![j] = TRUE] ELSE logs
-          /\ IF R # {} /\ job[j].present THEN ReqPersist ELSE UNCHANGED persist
+          /\ IF R # {} /\ job[j].present THEN ReqPersistMany ELSE UNCHANGED persist
           /\ sched' = [sched EXCEPT ![j].pc = "polling"]
 
 \* first pass, right after startJob spawned the goroutine
@@ -447,7 +451,7 @@ Finish(j, t, o) ==
         /\ sched' = [sched EXCEPT ![j].lastErr = IF hardFail THEN "exit" ELSE @]
         /\ cancelPending' = IF doCancel THEN cancelPending \cup {j} ELSE cancelPending
         /\ runs' = [runs EXCEPT ![j][t].outcome = o, ![j][t].execAtEnd = job[j].present /\ IsRunning(job, j), ![j][t].goneAtEnd = ~job[j].present]
-        /\ IF job[j].present THEN ReqPersist ELSE UNCHANGED persist
+        /\ IF job[j].present THEN ReqPersistMany ELSE UNCHANGED persist
   /\ OpEv(j, t, o)
   /\ last' = KeepForced([NoLast EXCEPT !.op = "finish", !.j = j, !.t = t, !.o = o])
   /\ Step(HStep("finish", 0, j, t, o, 0, "none"))
@@ -559,7 +563,8 @@ Save ==
 PersistSave ==
   /\ PersistDue /\ GoroutinesIdle /\ \A j \in Jobs : ~TimerDue(j)
   /\ DoSave
-  /\ persist' = [req |-> FALSE, pc |-> "sleeping", stale |-> FALSE]
+  /\ \E left \in (IF persist.multi THEN {FALSE, TRUE} ELSE {FALSE}) :
+        persist' = [req |-> left, multi |-> FALSE, pc |-> "sleeping", stale |-> FALSE]
   /\ ev' = [k |-> "Persist", j |-> 0, t |-> 0, o |-> ""]
   /\ NoStep /\ PreNext
   /\ UNCHANGED <<cfgv, epoch, stage, sched, running, rctx, cancelPending, shut, nops, nreloads, nticks, runs, stop, ack, last, clock>>
@@ -645,7 +650,7 @@ Restart ==
   /\ cancelPending' = {}
   /\ waitList' = [p \in P |-> <<>>]
   /\ shut' = "no"
-  /\ persist' = [req |-> FALSE, pc |-> "idle", stale |-> TRUE]
+  /\ persist' = [req |-> FALSE, multi |-> FALSE, pc |-> "idle", stale |-> TRUE]
   /\ ev' = [k |-> "Restart", j |-> 0, t |-> 0, o |-> ""]
   /\ last' = [NoLast EXCEPT !.op = "restart"]
   /\ Step(HStep("restart", 0, 0, 0, "", 0, "none"))
